@@ -5,7 +5,7 @@ import shutil
 from bodies import AttrTable, Tokens
 from common import scratch_dir
 from genstore import gen_template
-from storedrv import KINDS, compare, execute, shrink
+from storedrv import KINDS, compare, execute, noeffect_violations, shrink
 
 
 def run_templates(chk, templates, toks, prefixes, kinds=KINDS, label="store", git_every_step=False):
@@ -39,12 +39,21 @@ def run_templates(chk, templates, toks, prefixes, kinds=KINDS, label="store", gi
                 if note.startswith(prefixes) or (not note.startswith("C") and "C08:" in prefixes):
                     chk.violation(note.split(" ")[0] + " " + note.split(" ")[1] + "@" + kind if note.startswith("C") else "C08:ctag-not-tree-hash@" + kind,
                                   note, {"backend": kind, "template": tmpl, "lines": lines})
+            for (opi, ln, diff) in noeffect_violations(lines):
+                obs = ln.split(" | ", 1)[1].split(" ")[0]
+                tag = "C03:refused-conditional-request-changed-state" if obs == "badetag" else \
+                    "C01:refused-request-changed-state"
+                viol.append((opi, ln, tag + " first difference: " + diff))
             mine = [v for v in viol if v[2].startswith(prefixes)]
             if mine:
                 i, ln, verdict = mine[0]
                 sig = verdict.split(" ")[0]
-                small = shrink(kind, tmpl, toks, attrs,
-                               lambda ls: any(v[2].startswith(sig) for v in compare(ls)[1]))
+                def still(ls):
+                    vs = [v[2] for v in compare(ls)[1]]
+                    vs += [("C03:refused-conditional-request-changed-state" if l.split(" | ", 1)[1].startswith("badetag")
+                            else "C01:refused-request-changed-state") for (_, l, _) in noeffect_violations(ls)]
+                    return any(v.startswith(sig) for v in vs)
+                small = shrink(kind, tmpl, toks, attrs, still)
                 root = scratch_dir()
                 try:
                     slines, _ = execute(kind, small, toks, AttrTable(toks), root)
